@@ -56,6 +56,11 @@ pub struct State {
     /// before it ends there, however much was asked for); later reads deliver data again
     pub transient_error_at: Option<(usize, std::io::ErrorKind)>,
     pub transient_done: bool,
+    /// the peer pauses for this long (virtual time) once exactly `.0` bytes have been delivered; the
+    /// read before it ends there
+    pub pause_at: Option<(usize, std::time::Duration)>,
+    pub pause_done: bool,
+    pause_sleep: Option<Pin<Box<tokio::time::Sleep>>>,
 }
 
 #[derive(Clone)]
@@ -87,6 +92,9 @@ impl Scripted {
                 write_calls: 0,
                 transient_error_at: None,
                 transient_done: false,
+                pause_at: None,
+                pause_done: false,
+                pause_sleep: None,
             })),
             ctx,
         }
@@ -131,6 +139,26 @@ impl AsyncRead for Scripted {
             // nothing to deliver and no end of stream: the reader is blocked on the peer
             st.starved += 1;
             return Poll::Pending;
+        }
+        if let (Some((at, d)), false) = (st.pause_at, st.pause_done) {
+            if st.pos == at {
+                if st.pause_sleep.is_none() {
+                    st.pause_sleep = Some(Box::pin(tokio::time::sleep(d)));
+                }
+                match st.pause_sleep.as_mut().unwrap().as_mut().poll(cx) {
+                    Poll::Pending => return Poll::Pending,
+                    Poll::Ready(()) => {
+                        st.pause_done = true;
+                        st.pause_sleep = None;
+                    }
+                }
+            }
+        }
+        let mut avail = avail;
+        if let (Some((at, _)), false) = (st.pause_at, st.pause_done) {
+            if st.pos < at {
+                avail = avail.min(at - st.pos);
+            }
         }
         let max = avail.min(req);
         let n = match st.chunking {
@@ -226,30 +254,50 @@ pub enum Driven<T> {
     Blocked,
 }
 
-/// Polls `fut` to completion; `Blocked` if it is pending with no wake-up outstanding.
+thread_local! {
+    /// a paused-clock runtime per worker thread: gives the code under test a timer context (so a
+    /// `tokio::time` call in it neither panics nor needs real time) and lets virtual time pass
+    static RT: tokio::runtime::Runtime = tokio::runtime::Builder::new_current_thread().enable_time().start_paused(true).build().expect("runtime");
+}
+
+/// Polls `fut` to completion; `Blocked` if it is pending with no wake-up outstanding and no amount
+/// of (virtual) time makes it ready: once the manual poll loop finds the future pending without a
+/// wake-up, it is handed to the paused-clock runtime under a horizon of one virtual day, so that
+/// timers of the code under test and pauses of the scripted peer run off.
 pub fn drive<F: Future>(mut fut: Pin<&mut F>) -> Driven<F::Output> {
-    let flag = Arc::new(Flag(AtomicBool::new(false)));
-    let waker = Waker::from(flag.clone());
-    let mut cx = Context::from_waker(&waker);
-    let mut spins = 0u64;
-    loop {
-        vcore::report::watch_tick();
-        let polled = fut.as_mut().poll(&mut cx);
-        vcore::report::watch_exit();
-        match polled {
-            Poll::Ready(v) => return Driven::Done(v),
-            Poll::Pending => {
-                if !flag.0.swap(false, Ordering::SeqCst) {
-                    return Driven::Blocked;
-                }
-                spins += 1;
-                if spins > 10_000_000 {
-                    eprintln!("MACHINERY: poll loop did not settle");
-                    std::process::exit(vcore::report::EXIT_MACHINERY);
+    RT.with(|rt| {
+        let _ctx = rt.enter();
+        let flag = Arc::new(Flag(AtomicBool::new(false)));
+        let waker = Waker::from(flag.clone());
+        let mut cx = Context::from_waker(&waker);
+        let mut spins = 0u64;
+        loop {
+            vcore::report::watch_tick();
+            let polled = fut.as_mut().poll(&mut cx);
+            vcore::report::watch_exit();
+            match polled {
+                Poll::Ready(v) => return Driven::Done(v),
+                Poll::Pending => {
+                    if !flag.0.swap(false, Ordering::SeqCst) {
+                        vcore::report::watch_tick();
+                        let r = rt.block_on(async {
+                            match tokio::time::timeout(std::time::Duration::from_secs(86_400), std::future::poll_fn(|cx| fut.as_mut().poll(cx))).await {
+                                Ok(v) => Driven::Done(v),
+                                Err(_) => Driven::Blocked,
+                            }
+                        });
+                        vcore::report::watch_exit();
+                        return r;
+                    }
+                    spins += 1;
+                    if spins > 10_000_000 {
+                        eprintln!("MACHINERY: poll loop did not settle");
+                        std::process::exit(vcore::report::EXIT_MACHINERY);
+                    }
                 }
             }
         }
-    }
+    })
 }
 
 pub fn drive_boxed<T>(fut: Pin<Box<dyn Future<Output = T> + '_>>) -> Driven<T> {
